@@ -121,7 +121,13 @@ EMonEncode(m0, ev) ==
       nb == PopAtoms(avail1, ev.out, 0)
   IN
   IF r < 0 THEN [EAddViols(m, <<"C04.split-character">> \o EIndepTags(ev)) EXCEPT !.desync = TRUE]
-  ELSE IF nb < 0 THEN [EAddViols(m, <<"C04.prefix">> \o EIndepTags(ev)) EXCEPT !.desync = TRUE]
+  ELSE IF nb < 0 THEN
+       \* the bytes are not what the Standard's encoder writes.  When this single call is the whole stream, the round trip of
+       \* C12 can still be judged without the atom alignment: the complete output must decode to what the Standard's complete
+       \* output decodes to (no error, same text)
+       LET wholeStream == m.ctr.calls = 1 /\ ev.last /\ ev.res = "I"
+           rtBad == wholeStream /\ Run(cfg.out, ev.out) # Run(cfg.out, AtomBytes(avail1))
+       IN  [EAddViols(m, <<"C04.prefix">> \o (IF rtBad THEN <<"C12.roundtrip">> ELSE <<>>) \o EIndepTags(ev)) EXCEPT !.desync = TRUE]
   ELSE
   LET umOK == ev.res # "U" \/ (nb < Len(avail1) /\ avail1[nb + 1].k = "u" /\ avail1[nb + 1].v = <<ev.um>>)
       n == IF ev.res = "U" THEN nb + 1 ELSE nb
